@@ -13,12 +13,32 @@
 #include <ctype.h>
 #include <librfn/hex.h>
 
+/* Texts live in exactly-sized heap blocks (a read past the NUL is an ASan report).  Every other text is instead placed
+ * at the end of one long-lived block, so that consecutive texts of different kinds occupy the same addresses - freshly
+ * allocated blocks never do under ASan's quarantine, and a parser must not remember anything about an address. */
+#define ARENA 8192
+static char *arena;
+static unsigned copies;
 static char *exact_copy(const char *s, size_t len)
 {
-	char *p = malloc(len + 1);
+	char *p;
+	if ((copies++ & 1) && len + 1 <= ARENA) {
+		if (!arena)
+			arena = malloc(ARENA);
+		p = arena + ARENA - (len + 1);
+		VH_COUNT("texts_placed_over_an_earlier_text");
+	} else {
+		p = malloc(len + 1);
+	}
 	memcpy(p, s, len);
 	p[len] = 0;
 	return p;
+}
+static void text_free(char *p)
+{
+	if (arena && p >= arena && p < arena + ARENA)
+		return;
+	free(p);
 }
 
 static void show(char *out, size_t outsz, const char *s, size_t len)
@@ -52,6 +72,20 @@ static long parse_all(const char *text, size_t len, uint8_t *out, size_t outmax,
 			show(buf, sizeof(buf), text, len);
 			vh_violation("value-out-of-range", vh_cur_replay, "%s: hex_get_byte returned %d on \"%s\"", what, r, buf);
 			return -1;
+		}
+		/* a byte comes from a pair of hex digits in the text: the resume pointer stands just behind them */
+		if (p >= text + 2 && p <= text + len) {
+			unsigned char h = (unsigned char)p[-2], l = (unsigned char)p[-1];
+			int hv = h >= '0' && h <= '9' ? h - '0' : h >= 'a' && h <= 'f' ? h - 'a' + 10 : h >= 'A' && h <= 'F' ? h - 'A' + 10 : -1;
+			int lv = l >= '0' && l <= '9' ? l - '0' : l >= 'a' && l <= 'f' ? l - 'a' + 10 : l >= 'A' && l <= 'F' ? l - 'A' + 10 : -1;
+			if (hv < 0 || lv < 0 || hv * 16 + lv != r) {
+				show(buf, sizeof(buf), text, len);
+				vh_violation("byte-without-hex-pair", vh_cur_replay,
+					     "%s: hex_get_byte returned 0x%02x with the text position at offset %td, behind \"\\x%02x\\x%02x\", in \"%s\"", what,
+					     r, p - text, h, l, buf);
+				return -1;
+			}
+			VH_COUNT("bytes_traced_to_their_hex_pair");
 		}
 		if ((size_t)n < outmax)
 			out[n] = (uint8_t)r;
@@ -153,7 +187,7 @@ static void rt_case(long long c)
 		vh_sample("rt: %zu bytes -> \"%s\" -> %ld bytes", len, sh, n);
 	}
 	free(back);
-	free(text);
+	text_free(text);
 	free(buf);
 	free(bytes);
 }
@@ -216,7 +250,7 @@ static void fuzz_case(long long c)
 	VH_COUNT("fuzz_strings");
 	if (vh_want_sample() && n > 1 && multi)
 		vh_sample("fuzz: \"%s\" -> %ld bytes then -1", sh, n);
-	free(text);
+	text_free(text);
 }
 
 static void struct_case(long long c)
@@ -300,7 +334,7 @@ static void struct_case(long long c)
 	}
 	if (vh_want_sample() && lines >= 2 && prefix && len < 120)
 		vh_sample("struct: \"%s\" -> %ld bytes", sh, n);
-	free(text);
+	text_free(text);
 }
 
 int main(int argc, char **argv)
